@@ -20,6 +20,7 @@ REPO = os.environ.get("VERIF_REPO", "/repo")
 SRC = os.environ.get("VERIF_SRC", os.path.join(REPO, "src"))
 
 # caps are >= 10x the times measured on the unchanged tree (the check environment is several times slower)
+CEGAR_ROUNDS = 6
 QUERY_TIMEOUT = {"quick": 60, "thorough": 180}
 
 
@@ -129,7 +130,27 @@ def prove(oid, conds, goal, timeout_s, witness_vars=None, extra=(), instantiate=
         r, dt, m, s = Query.solve(conds, goal, timeout_s, extra=extra, instantiate=instantiate, pairwise=pairwise, tactic=tactic, deep_gen=deep_gen)
     except z3.Z3Exception as e:
         return rec(oid, "error", 0.0, detail=f"z3: {e}")
+    # CEGAR: a model fixes arbitrary values for the uninterpreted functions; refine with true
+    # point / half-space lemmas at the model's argument values and re-solve
+    rounds = 0
+    lemmas_total = 0
+    while r == "sat" and instantiate and rounds < CEGAR_ROUNDS:
+        lem = theory.point_lemmas(m, s)
+        if not lem:
+            break
+        rounds += 1
+        lemmas_total += len(lem)
+        s.add(lem)
+        t0 = time.time()
+        r = str(s.check())
+        dt += time.time() - t0
+        Query.count += 1
+        Query.time += time.time() - t0
+        m = s.model() if r == "sat" else None
     out = rec(oid, r, dt)
+    if rounds:
+        out["cegar_rounds"] = rounds
+        out["cegar_lemmas"] = lemmas_total
     if note:
         out["note"] = note
     if r == "unsat":
@@ -247,7 +268,10 @@ def run_replay(path, timeout=300):
     """Returns (reproduced: bool|None, detail). None = replay itself failed."""
     py = sys.executable
     env = dict(os.environ)
-    env["PYTHONPATH"] = ROOT + os.pathsep + env.get("PYTHONPATH", "")
+    pp = ROOT + os.pathsep + env.get("PYTHONPATH", "")
+    if os.environ.get("VERIF_REPO"):
+        pp = os.path.join(os.environ["VERIF_REPO"], "src") + os.pathsep + pp
+    env["PYTHONPATH"] = pp
     try:
         p = subprocess.run([py, "-m", "symgs.replay", path], capture_output=True, text=True, timeout=timeout, env=env, cwd=ROOT)
     except subprocess.TimeoutExpired:
